@@ -251,20 +251,21 @@ impl Gen {
     cfg.cap = cfg.prefix() + self.rng.pick(&[1024u32, 2048, 4096]);
     let mut c = SchedCase { cfg: cfg.line(), budget: DEFAULT_BUDGET, ..Default::default() };
     let mut h = 0u32;
+    // sometimes the cursor was moved back by a relative rewind before anything else happens (nothing is live then; the
+    // cursor must stop at the data area)
+    if self.rng.chance(12) {
+      let n = self.rng.range(1, 64);
+      let back = n + self.rng.range(0, 48);
+      c.pre.push(format!("alloc_bytes 90 {n}"));
+      c.pre.push("detach 90".to_string());
+      c.pre.push(format!("rewind cur -{back}"));
+    }
     for _ in 0..self.rng.range(0, 2) {
       let n = self.rng.range(1, 40);
       let b = self.byte();
       c.pre.push(format!("alloc_bytes {h} {n}"));
       c.pre.push(format!("fill {h} {b}"));
       h += 1;
-    }
-    // sometimes the cursor was moved back by a relative rewind before the threads start (it must stop at the data area)
-    if self.rng.chance(12) {
-      let n = self.rng.range(1, 64);
-      let back = n + self.rng.range(0, 48);
-      c.pre.push(format!("alloc_bytes {h} {n}"));
-      c.pre.push(format!("detach {h}"));
-      c.pre.push(format!("rewind current -{back}"));
     }
     let nt = self.rng.range(2, 4) as usize;
     let mut est = Vec::new();
